@@ -113,7 +113,8 @@ func runInc(p *plan.Plan, inc *plan.Incarnation) {
 	}
 	simrt.Init(simrt.Config{
 		On: k.Sched, Choices: inc.Choices, Seed: inc.SchedSeed, PreemptPermille: k.PreemptPermille,
-		Procs: k.Procs, MapSeed: inc.SchedSeed, MaxDecisions: 5_000_000,
+		DelayPermille: k.DelayPermille, DelayLen: k.DelayLen,
+		Procs: k.Procs, MapSeed: inc.SchedSeed, MaxDecisions: 5_000_000 + advanceSeconds(inc.Ops)*3000,
 	})
 	world.Reinit()
 	simrt.Run(func() {
@@ -274,4 +275,19 @@ func spinWatchdog() {
 		fmt.Fprintf(os.Stderr, "SIM-HANG spin\n%s\n", dump)
 		os.Exit(78)
 	}
+}
+
+// advanceSeconds: simulated time the plan itself asks for; the ~40 one-second background loops cost
+// scheduling decisions per simulated second, so the livelock budget grows with it.
+func advanceSeconds(ops []plan.Op) uint64 {
+	var n uint64
+	for i := range ops {
+		if ops[i].Kind == "advance" {
+			n += uint64(ops[i].DurMs/1000) + 1
+		}
+		for _, c := range ops[i].Par {
+			n += advanceSeconds(c)
+		}
+	}
+	return n
 }
